@@ -14,3 +14,7 @@ claim("C13", "decision tables by abstract interpretation of Matcher.matches/_con
 claim("C02", "typed-truthiness lint + abstract interpretation of the yacc action ASTs and Scanner.includes/is_last over the bounded scan-part language + LALR(1) check",
       "Static: no truthiness test on from_line/to_line (0 is a line); Scanner.includes/is_last interpreted on the scanner state produced by the yacc action ASTs for every scan part of the quantifier up to the bound (3 '+' operands, bounds 0..5/6) and compared with the denotation for lines 0..9 — the functions only compare line numbers (checked), so small integers cover all order types; _consider_line decision table (only included, non-blank lines are counted/matched; stop at the scan's last line); PLY grammar LALR(1) conflict-free. The composition of '+' chains is decided only up to the bound.",
       BASE_NOTE + " The reduction order of the PLY parser is replayed by the checker for the grammar shape it verifies (left-recursive expression/term); PLY itself is trusted.")
+
+claim("C05", "decision tables by abstract interpretation of ErrorHandler._handle_if / do_i_* / validation-mode parsers / Expression.matches + defined-attribute check + trap-shape check",
+      "Static: the full decision table of ErrorHandler._handle_if shows each effect (stop, collect, fail, print, raise) depends on its own flag only, raise last; do_i_* consult the matching override else the matching policy member; the validation-mode token parsers are tabulated over all strings of <= 2 tokens; every attribute the handler reads on the Error record is defined; Matcher.matches reaches clear_errors before every return (from the same exhaustive table as C13.R1); Expression.matches/Function.matches/Matcher._do_lasts trap Exception around every child evaluation and an erroring expression does not match unless validation-mode says match. Does not decide which inputs raise.",
+      BASE_NOTE)
